@@ -33,7 +33,7 @@ func (r *Run) binop(fr *frame, instr poser, op token.Token, t types.Type, x, y v
 	_, yr := y.(runesV)
 	if xr || yr {
 		if op == token.ADD {
-			return runesConcat(toRunes(x), toRunes(y))
+			return runesConcat(x, y)
 		}
 		panic(unsupported(fmt.Sprintf("binop %s on rune vector", op)))
 	}
@@ -179,7 +179,7 @@ func (r *Run) sliceOp(fr *frame, instr *ssa.Slice, x, lo, hi, max value) value {
 		if !r.branch(simplifyBool(ok)) {
 			fr.panicAt(instr, "slice-bounds", "slice bounds out of range (string)")
 		}
-		return termOrString(Substr(xv, l, Sub(h, l)))
+		return termOrString(r.substrFresh(xv, l, h))
 	case string:
 		_, ls := lo.(*Term)
 		_, hs := hi.(*Term)
@@ -201,6 +201,22 @@ func (r *Run) sliceOp(fr *frame, instr *ssa.Slice, x, lo, hi, max value) value {
 		return nativeV{xv.rv.Slice(l, h)}
 	case symBytes:
 		panic(unsupported("slicing symbolic bytes"))
+	case runesV:
+		if !xv.bytes {
+			panic(unsupported("slicing a rune vector"))
+		}
+		n := len(xv.cps)
+		l, h := int64(0), int64(n)
+		if lo != nil {
+			l = r.concreteOrFork(lo, 0, int64(n))
+		}
+		if hi != nil {
+			h = r.concreteOrFork(hi, 0, int64(n))
+		}
+		if l < 0 || h < l || h > int64(n) {
+			fr.panicAt(instr, "slice-bounds", "slice bounds out of range (string)")
+		}
+		return runesV{xv.cps[l:h], true}.norm()
 	}
 	var Len, Cap int
 	switch xv := x.(type) {
@@ -246,6 +262,46 @@ func (r *Run) sliceOp(fr *frame, instr *ssa.Slice, x, lo, hi, max value) value {
 	panic("unreachable")
 }
 
+// substrFresh returns s[l:h] (bounds already established) as a fresh variable defined by a word
+// equation s = pre ++ res ++ post with length constraints - the form z3's sequence solver handles
+// best; constant cases are folded.
+func (r *Run) substrFresh(s, l, h *Term) *Term {
+	if s.IsConst() && l.IsConst() && h.IsConst() {
+		return StrT(s.S[l.I:h.I])
+	}
+	n := StrLen(s)
+	if l.IsConst() && l.I == 0 && h == n {
+		return s
+	}
+	if l == h {
+		return StrT("")
+	}
+	res := r.newInput(r.freshName("slice"), SStr)
+	var parts []*Term
+	if !(l.IsConst() && l.I == 0) {
+		pre := r.newInput(r.freshName("slice.pre"), SStr)
+		parts = append(parts, pre)
+		r.assume(Eq(StrLen(pre), l))
+	}
+	parts = append(parts, res)
+	if h != n {
+		post := r.newInput(r.freshName("slice.post"), SStr)
+		parts = append(parts, post)
+		r.assume(Eq(StrLen(res), Sub(h, l)))
+	}
+	r.assume(Eq(s, Concat(parts...)))
+	return res
+}
+
+// concreteOrFork returns a concrete value for an int, forking over [lo,hi] when symbolic
+// (a value outside the range comes back as lo-1).
+func (r *Run) concreteOrFork(v value, lo, hi int64) int64 {
+	if t, ok := v.(*Term); ok && !t.IsConst() {
+		return r.concretizeInt(t, lo, hi)
+	}
+	return r.concreteInt(v, "int")
+}
+
 func termOrString(t *Term) value {
 	if t.IsConst() && t.Sort == SStr {
 		return t.S
@@ -289,6 +345,12 @@ func (r *Run) lookup(fr *frame, instr *ssa.Lookup, x, idx value) value {
 		return v
 	case nativeV:
 		return r.nativeMapLookup(fr, instr, m, idx)
+	case runesV:
+		if !m.bytes {
+			panic(unsupported("indexing a rune vector"))
+		}
+		i := r.indexIn(fr, instr, idx, len(m.cps))
+		return byteTerm{m.cps[i]}.norm()
 	case string, *Term:
 		// string index via Lookup (s[i] on string operand)
 		s := asTerm(m)
@@ -561,6 +623,9 @@ func (r *Run) callBuiltin(caller *frame, callpos token.Pos, fn *ssa.Builtin, arg
 		case *Term:
 			return termOrInt(StrLen(x))
 		case runesV:
+			if x.bytes {
+				return len(x.cps)
+			}
 			panic(unsupported("len of rune vector (byte length is not the rune count)"))
 		case symBytes:
 			return termOrInt(StrLen(asTerm(x.s)))
@@ -604,6 +669,9 @@ func (r *Run) callBuiltin(caller *frame, callpos token.Pos, fn *ssa.Builtin, arg
 	case "panic":
 		panic(goPanic{kind: "explicit-panic", msg: toString(args[0]), pos: callpos})
 
+	case "ssa:deferstack":
+		return nil // only consumed by Defer instructions, which are refused
+
 	case "ssa:wrapnilchk":
 		recv := args[0]
 		if p, ok := recv.(*value); ok && p == nil {
@@ -614,7 +682,7 @@ func (r *Run) callBuiltin(caller *frame, callpos token.Pos, fn *ssa.Builtin, arg
 		}
 		return recv
 	}
-	panic(unsupported("built-in: " + fn.Name()))
+	panic(unsupported("built-in: " + fn.Name() + " in " + callerName(caller)))
 }
 
 func termOrInt(t *Term) value {
